@@ -22,12 +22,21 @@ package ct
 // digitally-signed struct (RFC 5246 4.7): hash(1) signature(1) opaque signature<0..2^16-1>.
 // dsBody: everything but the length prefix; dsPrefix: the 2-byte big-endian length.
 //@ pred dsLen(ds) = 1 + 1 + 2 + len(ds.Signature)
-//@ pred dsBody(out, ds) = out[0] == uint8(ds.HashAlgorithm) && out[1] == uint8(ds.SignatureAlgorithm) && forall(k, 0, len(ds.Signature), out[4+k] == old(ds.Signature[k]))
+//@ pred dsBody(out, ds) = out[0] == uint8(ds.HashAlgorithm) && out[1] == uint8(ds.SignatureAlgorithm) && forall(k, 0, len(ds.Signature), out[4+k] == ds.Signature[k] && ds.Signature[k] == old(ds.Signature[k]), ds.Signature[k])
 //@ pred dsPrefix(out, ds) = int(out[2])<<8 | int(out[3]) == len(ds.Signature)
 
-// A signature longer than 65535 bytes cannot be represented and must be refused (defect_siglen:
-// the code stores uint16(len) and succeeds). With clause [siglen] the last two clauses
-// say: on success the output is exactly hash, algorithm, 2-byte length, signature.
+// A signature longer than 65535 bytes cannot be represented in the 2-byte length and must be
+// refused with an error, never truncated: clause [siglen]. (The code used to store uint16(len)
+// and succeed - defect_siglen, S8; fixed by commit "fix: ct: DigitallySigned serialisation
+// silently truncated signature lengths above 65535 to 16 bits": it now returns an error before
+// the buffer check, and [siglen] holds.) Together the clauses say: success exactly when the
+// signature fits and the buffer (if one is given) is large enough; on success the output is
+// exactly hash, algorithm, 2-byte big-endian length, signature bytes, it is here[:dsLen] (or
+// fresh when here is nil), the input is unchanged and so is the rest of here.
+// Frame: `modifies elems(here)` plus the explicit "tail unchanged" clause instead of the
+// equivalent elems(here, 0, dsLen): with the latter the caller serializeV1SCTHere needs 60+ CPU s
+// (three-summand bit-vector inequalities); with this form the caller's frame is syntactic
+// (it passes here[n:] whose length is exactly dsLen).
 //@ func marshalDigitallySignedHere
 //@   requires len(ds.Signature) + 4 <= 1<<48
 //@   requires here != nil ==> sep(here, ds.Signature)
@@ -37,8 +46,9 @@ package ct
 //@   ensures  result1 != nil ==> result0 == nil
 //@   ensures  result1 == nil ==> len(result0) == dsLen(ds) && (here == nil ==> fresh(result0)) && (here != nil ==> same(result0, here[:dsLen(ds)]))
 //@   ensures  result1 == nil ==> dsBody(result0, ds)
-//@   ensures  result1 == nil && len(ds.Signature) <= 0xffff ==> dsPrefix(result0, ds)
-//@   modifies elems(here, 0, ite(here == nil, 0, dsLen(ds)))
+//@   ensures  result1 == nil ==> dsPrefix(result0, ds)
+//@   ensures  forall(k, dsLen(ds), len(here), here[k] == old(here[k]), here[k])
+//@   modifies elems(here)
 //@   terminates
 
 //@ func MarshalDigitallySigned
@@ -48,15 +58,17 @@ package ct
 //@   ensures  result1 != nil ==> result0 == nil
 //@   ensures  result1 == nil ==> len(result0) == dsLen(ds) && fresh(result0)
 //@   ensures  result1 == nil ==> dsBody(result0, ds)
-//@   ensures  result1 == nil && len(ds.Signature) <= 0xffff ==> dsPrefix(result0, ds)
+//@   ensures  result1 == nil ==> dsPrefix(result0, ds)
 //@   terminates
 
 // SCT (RFC 6962 3.2): version(1) log id(32) timestamp(8) extensions<0..2^16-1> digitally-signed.
-// Frame of the ...Here functions: stated as "nothing outside the array behind here changes, and
-// the bytes of here after the output keep their values" (the exact elems(here, 0, sctLen) frame
-// needs 60+ CPU s in the solver and was not stable).
+// Frame of the ...Here functions: exactly the first sctLen bytes of here may change (nothing at
+// all when here is nil: the output is then fresh). On success the output is here[:sctLen] and
+// its length is what SerializedLength reports; the signature part starts at 43+len(extensions).
+// The byte-content quantifiers carry an instantiation trigger (5th argument of forall) on the
+// current-state read of the input slice, and say in the same breath that the input is unchanged.
 //@ pred sctLen(sct) = 1 + 32 + 8 + 2 + len(sct.Extensions) + dsLen(sct.Signature)
-//@ pred sctHead(out, sct) = out[0] == uint8(sct.SCTVersion) && forall(k, 0, 32, out[1+k] == sct.LogID[k]) && spec.be64(seq(out[33:]), 8) == sct.Timestamp && int(out[41])<<8 | int(out[42]) == len(sct.Extensions) && forall(k, 0, len(sct.Extensions), out[43+k] == old(sct.Extensions[k]))
+//@ pred sctHead(out, sct) = out[0] == uint8(sct.SCTVersion) && forall(k, 0, 32, out[1+k] == sct.LogID[k]) && spec.be64(seq(out[33:]), 8) == sct.Timestamp && int(out[41])<<8 | int(out[42]) == len(sct.Extensions) && forall(k, 0, len(sct.Extensions), out[43+k] == sct.Extensions[k] && sct.Extensions[k] == old(sct.Extensions[k]), sct.Extensions[k])
 
 //@ func (SignedCertificateTimestamp).SerializedLength
 //@   ensures sct.SCTVersion == 0 ==> result1 == nil && result0 == sctLen(sct)
@@ -76,9 +88,8 @@ package ct
 //@   ensures  result1 == nil ==> len(result0) == sctLen(sct) && (here == nil ==> fresh(result0)) && (here != nil ==> same(result0, here[:sctLen(sct)]))
 //@   ensures  result1 == nil ==> sctHead(result0, sct)
 //@   ensures  result1 == nil ==> dsBody(result0[43+len(sct.Extensions):], sct.Signature)
-//@   ensures  result1 == nil && len(sct.Signature.Signature) <= 0xffff ==> dsPrefix(result0[43+len(sct.Extensions):], sct.Signature)
-//@   ensures  here != nil ==> forall(k, sctLen(sct), len(here), here[k] == old(here[k]))
-//@   modifies under(here)
+//@   ensures  result1 == nil ==> dsPrefix(result0[43+len(sct.Extensions):], sct.Signature)
+//@   modifies elems(here, 0, ite(here == nil, 0, sctLen(sct)))
 //@   terminates
 
 //@ func SerializeSCTHere
@@ -92,9 +103,8 @@ package ct
 //@   ensures  result1 == nil ==> len(result0) == sctLen(sct) && (here == nil ==> fresh(result0)) && (here != nil ==> same(result0, here[:sctLen(sct)]))
 //@   ensures  result1 == nil ==> sctHead(result0, sct)
 //@   ensures  result1 == nil ==> dsBody(result0[43+len(sct.Extensions):], sct.Signature)
-//@   ensures  result1 == nil && len(sct.Signature.Signature) <= 0xffff ==> dsPrefix(result0[43+len(sct.Extensions):], sct.Signature)
-//@   ensures  here != nil ==> forall(k, sctLen(sct), len(here), here[k] == old(here[k]))
-//@   modifies under(here)
+//@   ensures  result1 == nil ==> dsPrefix(result0[43+len(sct.Extensions):], sct.Signature)
+//@   modifies elems(here, 0, ite(here == nil, 0, sctLen(sct)))
 //@   terminates
 
 //@ func SerializeSCT
@@ -131,8 +141,12 @@ package ct
 // ---------------------------------------------------------------- serialization.go (decoders)
 //
 // The io.Reader is not modelled as a byte stream (no ghost state for readers in govc, and the
-// assumed contract of io.ReadFull says nothing about contents), so the decoders get safety
-// contracts: no panic, termination, frame, and the length bounds implied by the wire format.
+// assumed contract of io.ReadFull says nothing about contents), so decode(encode(x)) == x cannot
+// be stated. The decoders get (a) safety contracts (C01): no panic, termination, frame, and the
+// length bounds implied by the wire format, and (b) the inverse layout as the sequence of reads:
+// the k-th read operation is asserted to read from the same reader r, into the k-th field of the
+// structure, with the width the encoder wrote (binary.Read into a *uintN / *[32]byte = N/8 or 32
+// big-endian bytes; readVarBytes(r, n) = n-byte length prefix, then exactly that many bytes).
 
 // numBytes big-endian bytes: the value is below 2^(8*numBytes). Nothing that existed before the
 // call changes (each byte is read into a fresh local). govc havocs the whole heap at the loop
@@ -154,6 +168,8 @@ package ct
 // accepts (run-time panic), hence numLenBytes <= 6 here (all callers pass 2 or 3).
 //@ func readVarBytes
 //@   requires r != nil && numLenBytes <= 6
+//@   at call readUint assert arg0 == r && arg1 == numLenBytes
+//@   at call io.ReadFull assert arg0 == r && len(arg1) == int(l)
 //@   ensures  numLenBytes == 0 ==> result1 != nil
 //@   ensures  result1 != nil ==> result0 == nil
 //@   ensures  result1 == nil ==> result0 != nil && fresh(result0)
@@ -162,12 +178,19 @@ package ct
 
 //@ func UnmarshalDigitallySigned
 //@   requires r != nil
+//@   at call binary.Read#1 assert arg0 == r && typeis(arg2, *byte)
+//@   at call binary.Read#2 assert arg0 == r && typeis(arg2, *byte)
+//@   at call readVarBytes assert arg0 == r && arg1 == 2
 //@   ensures  result1 != nil ==> result0 == nil
 //@   ensures  result1 == nil ==> result0 != nil && fresh(result0) && result0.Signature != nil && fresh(result0.Signature) && len(result0.Signature) <= 0xffff
 //@   terminates
 
 //@ func deserializeSCTV1
 //@   requires r != nil && sct != nil
+//@   at call binary.Read#1 assert arg0 == r && typeis(arg2, *SHA256Hash) && unboxed(arg2, *SHA256Hash) == &sct.LogID
+//@   at call binary.Read#2 assert arg0 == r && typeis(arg2, *uint64) && unboxed(arg2, *uint64) == &sct.Timestamp
+//@   at call readVarBytes assert arg0 == r && arg1 == 2
+//@   at call UnmarshalDigitallySigned assert arg0 == r
 //@   ensures  result == nil ==> sct.Extensions != nil && fresh(sct.Extensions) && len(sct.Extensions) <= 0xffff
 //@   ensures  result == nil ==> sct.Signature.Signature != nil && fresh(sct.Signature.Signature) && len(sct.Signature.Signature) <= 0xffff
 //@   modifies under(sct)
@@ -175,6 +198,8 @@ package ct
 
 //@ func DeserializeSCT
 //@   requires r != nil
+//@   at call binary.Read assert arg0 == r && typeis(arg2, *Version)
+//@   at call deserializeSCTV1 assert arg0 == r
 //@   ensures  result1 == nil ==> result0 != nil && fresh(result0) && len(result0.Extensions) <= 0xffff && len(result0.Signature.Signature) <= 0xffff
 //@   terminates
 
@@ -256,12 +281,21 @@ package ct
 
 //@ func ReadTimestampedEntryInto
 //@   requires r != nil && t != nil
+//@   at call binary.Read#1 assert arg0 == r && typeis(arg2, *uint64) && unboxed(arg2, *uint64) == &t.Timestamp
+//@   at call binary.Read#2 assert arg0 == r && typeis(arg2, *LogEntryType) && unboxed(arg2, *LogEntryType) == &t.EntryType
+//@   at call binary.Read#3 assert arg0 == r
+//@   at call readVarBytes#1 assert arg0 == r && arg1 == 3
+//@   at call readVarBytes#2 assert arg0 == r && arg1 == 3
+//@   at call readVarBytes#3 assert arg0 == r && arg1 == 2
 //@   ensures  result == nil ==> t.Extensions != nil && fresh(t.Extensions) && len(t.Extensions) <= 0xffff
 //@   modifies under(t)
 //@   terminates
 
 //@ func ReadMerkleTreeLeaf
 //@   requires r != nil
+//@   at call binary.Read#1 assert arg0 == r && typeis(arg2, *zcrypto_ct.Version)
+//@   at call binary.Read#2 assert arg0 == r && typeis(arg2, *MerkleLeafType)
+//@   at call ReadTimestampedEntryInto assert arg0 == r
 //@   ensures  result1 != nil ==> result0 == nil
 //@   ensures  result1 == nil ==> result0 != nil && fresh(result0) && len(result0.TimestampedEntry.Extensions) <= 0xffff
 //@   terminates
